@@ -30,6 +30,19 @@ func init() {
 	_ = compose.RegisterSerializableType[St]("verif_state")
 	_ = compose.RegisterSerializableType[map[string]any]("verif_map")
 	_ = compose.RegisterSerializableType[nilTok]("verif_niltok")
+	// nodes whose static output type is `any`: the application tells the framework how chunks of
+	// that type concatenate (the framework cannot know for an interface type)
+	compose.RegisterStreamChunkConcatFunc(func(vs []any) (any, error) {
+		var acc M
+		for _, v := range vs {
+			m, ok := v.(M)
+			if !ok && v != nil {
+				return nil, fmt.Errorf("chunk of type %T in a stream of maps", v)
+			}
+			acc = concatInto(acc, m)
+		}
+		return acc, nil
+	})
 }
 
 type lopt struct{ Tag string }
@@ -474,7 +487,62 @@ func (b *builder) lambda(p *Plan, n *Node, full string) *compose.Lambda {
 			return sr, nil
 		}
 	}
+	if n.AnyOut {
+		return anyOutLambda(fi, fs, fc, ft)
+	}
 	l, err := compose.AnyLambda(fi, fs, fc, ft)
+	if err != nil {
+		panic(err)
+	}
+	return l
+}
+
+// anyOutLambda: the same node functions behind the static output type `any`.
+func anyOutLambda(fi compose.Invoke[M, M, lopt], fs compose.Stream[M, M, lopt], fc compose.Collect[M, M, lopt], ft compose.Transform[M, M, lopt]) *compose.Lambda {
+	var gi compose.Invoke[M, any, lopt]
+	var gs compose.Stream[M, any, lopt]
+	var gc compose.Collect[M, any, lopt]
+	var gt compose.Transform[M, any, lopt]
+	up := func(sr *schema.StreamReader[M]) *schema.StreamReader[any] {
+		return schema.StreamReaderWithConvert(sr, func(m M) (any, error) { return m, nil })
+	}
+	if fi != nil {
+		gi = func(ctx context.Context, in M, os ...lopt) (any, error) {
+			o, err := fi(ctx, in, os...)
+			if err != nil {
+				return nil, err
+			}
+			return o, nil
+		}
+	}
+	if fs != nil {
+		gs = func(ctx context.Context, in M, os ...lopt) (*schema.StreamReader[any], error) {
+			sr, err := fs(ctx, in, os...)
+			if err != nil {
+				return nil, err
+			}
+			return up(sr), nil
+		}
+	}
+	if fc != nil {
+		gc = func(ctx context.Context, in *schema.StreamReader[M], os ...lopt) (any, error) {
+			o, err := fc(ctx, in, os...)
+			if err != nil {
+				return nil, err
+			}
+			return o, nil
+		}
+	}
+	if ft != nil {
+		gt = func(ctx context.Context, in *schema.StreamReader[M], os ...lopt) (*schema.StreamReader[any], error) {
+			sr, err := ft(ctx, in, os...)
+			if err != nil {
+				return nil, err
+			}
+			return up(sr), nil
+		}
+	}
+	l, err := compose.AnyLambda(gi, gs, gc, gt)
 	if err != nil {
 		panic(err)
 	}
@@ -638,11 +706,24 @@ func (b *builder) compileOpts(p *Plan) []compose.GraphCompileOption {
 }
 
 // anyGraph builds the (uncompiled) eino graph of a plan.
+// graphAPI is what Graph[I, O] offers whatever I and O are.
+type graphAPI interface {
+	compose.AnyGraph
+	AddLambdaNode(key string, node *compose.Lambda, opts ...compose.GraphAddNodeOpt) error
+	AddPassthroughNode(key string, opts ...compose.GraphAddNodeOpt) error
+	AddGraphNode(key string, node compose.AnyGraph, opts ...compose.GraphAddNodeOpt) error
+	AddEdge(startNode, endNode string) error
+	AddBranch(startNode string, branch *compose.GraphBranch) error
+}
+
 func (b *builder) anyGraph(p *Plan, path string) (compose.AnyGraph, error) {
 	if p.Mode == ModeWorkflow {
 		return b.workflow(p, path)
 	}
-	g := compose.NewGraph[M, M](b.newGraphOpts(p, path)...)
+	var g graphAPI = compose.NewGraph[M, M](b.newGraphOpts(p, path)...)
+	if p.AnyOut && path != "" {
+		g = compose.NewGraph[M, any](b.newGraphOpts(p, path)...)
+	}
 	for _, n := range p.Nodes {
 		full := joinPath(path, n.Key)
 		opts := b.nodeOpts(p, n, full)
@@ -679,8 +760,21 @@ func (b *builder) anyGraph(p *Plan, path string) (compose.AnyGraph, error) {
 	return g, nil
 }
 
+// workflowAPI is what Workflow[I, O] offers whatever I and O are.
+type workflowAPI interface {
+	compose.AnyGraph
+	AddLambdaNode(key string, lambda *compose.Lambda, opts ...compose.GraphAddNodeOpt) *compose.WorkflowNode
+	AddPassthroughNode(key string, opts ...compose.GraphAddNodeOpt) *compose.WorkflowNode
+	AddGraphNode(key string, graph compose.AnyGraph, opts ...compose.GraphAddNodeOpt) *compose.WorkflowNode
+	End() *compose.WorkflowNode
+	AddBranch(fromNodeKey string, branch *compose.GraphBranch) *compose.WorkflowBranch
+}
+
 func (b *builder) workflow(p *Plan, path string) (compose.AnyGraph, error) {
-	wf := compose.NewWorkflow[M, M](b.newGraphOpts(p, path)...)
+	var wf workflowAPI = compose.NewWorkflow[M, M](b.newGraphOpts(p, path)...)
+	if p.AnyOut && path != "" {
+		wf = compose.NewWorkflow[M, any](b.newGraphOpts(p, path)...)
+	}
 	nodes := map[string]*compose.WorkflowNode{}
 	for _, n := range p.Nodes {
 		full := joinPath(path, n.Key)
@@ -737,6 +831,18 @@ func (b *builder) workflow(p *Plan, path string) (compose.AnyGraph, error) {
 
 // Compile builds and compiles the plan into a runnable.
 func (b *builder) Compile(ctx context.Context, p *Plan) (compose.Runnable[M, M], error) {
+	r, err := b.compile(ctx, p)
+	if err != nil && hasAnyTypes(p) {
+		// the library may refuse a combination of static types at build time: the plan then runs
+		// with its ordinary types
+		b.env.Probes["any_types_refused_at_build"]++
+		clearAnyTypes(p)
+		r, err = b.compile(ctx, p)
+	}
+	return r, err
+}
+
+func (b *builder) compile(ctx context.Context, p *Plan) (compose.Runnable[M, M], error) {
 	g, err := b.anyGraph(p, "")
 	if err != nil {
 		return nil, err
